@@ -26,9 +26,11 @@ FIXED = [
  ("KF-C04-1", "C04", "654daa2", "C04.substitution", "an Overlay.tweaking / rewriting override on a tooled function is silently dropped while a probe on another variable of that function is active"),
  ("KF-C04-2", "C04", "0292be5", "C04.stream", "a probe or override on an attribute store (f > o.n) never fires unless the whole function is tooled"),
  ("KF-C04-3", "C04", "be94eb2", "C04.substitution", "tooled() / tooled.inplace() applied to a function that was probed earlier does nothing: an Overlay.tweaking override on it is silently never applied"),
+ ("KF-C04-4", "C04", "31fe00e", "C04.substitution", "a subscriber of an overridable probe that calls the probed function again while an event is being delivered makes the outer binding receive the value supplied for the inner one (or lose its own)"),
  ("KF-C16-5", "C16", "5910367", "C16.name_error_info", "PteraNameError.info() (annotation, provenance) raises TypeError once the probe that was active when the error was raised has ended, e.g. in a handler outside the with-block"),
  ("KF-C13-1", "C13", "447c057", "C13.receiver", "obj.meth > v also observes calls on a distinct instance that compares equal to obj"),
  ("KF-C13-3", "C13", "447c057", "C13.activation", "obj.meth > v fails with 'unhashable type' when obj defines __eq__ without __hash__"),
+ ("KF-C13-4", "C13", "681f302", "C13.receiver", "obj.meth > v on a receiver whose __eq__ raises / yields no truth value (array-like) makes the probed call fail: the receiver predicate was first compared to the captured value with =="),
  ("KF-C14-1", "C14", "755b237", "C14.resolves", "after a probe on a method K.meth, the reference /module/meth of the top-level function meth resolves to the method"),
  ("KF-C14-2", "C14", "cd87ef6", "C14.resolves", "selecting /module/fn while a probe is active on fn fails with 'Reference is ambiguous' (when codefind scans the heap rather than its cache)"),
  ("KF-C16-3", "C16", "e824295", "C16.no_absent", "a declared-only variable (x: int) that no active selector names is bound to the ABSENT marker instead of failing with PteraNameError"),
